@@ -118,6 +118,8 @@ def draw_channel(g, doc):
         elif ascii_only and cfg["codec"] == "utf-8" and g.random() < 0.3:
             cfg["explicit"] = False
             cfg["no_chardet"] = True
+        if cfg["explicit"] and g.random() < 0.25:
+            cfg["no_autodetect"] = True              # encoding= named AND detection switched off: the named codec still rules
     else:
         cfg["newline"] = g.choice(["\n", "\n", "\r\n"])
     return cfg
@@ -161,7 +163,7 @@ class C10(Prop):
                 if k is not None and k > 1:
                     col = next(j for j, ch in enumerate(lines[k]) if ord(ch) > 127)
                     before = len(("\n".join(lines[:k]) + "\n" + lines[k][:col]).encode("utf-8"))
-                    target = g.choice([3999, 4000, 4001, 4095, 4096, 8191, 8192, 8193])
+                    target = g.choice([65535, 65536, 65536, 131072]) if g.random() < 0.12 else g.choice([3999, 4000, 4001, 4095, 4096, 8191, 8192, 8193, 16384])
                     pad = target - before - 2
                     if pad > 0:
                         lines.insert(1, "#" + "p" * pad)
